@@ -355,6 +355,9 @@ class Interp:
             return Const(t)
         if isinstance(t, tuple) and t and t[0] in ("fn", "closure"):
             return FnV(t[1])
+        if isinstance(t, list):
+            from .stdmodels import Seq
+            return Seq([self._from_tree(x) for x in t])
         if isinstance(t, dict):
             vi = None
             a = self.facts.adt(t["adt"]) or self.facts.adt(t["adt"], "any")
@@ -584,6 +587,8 @@ class Interp:
             argv = [env] + list(args)
         else:
             argv = list(args)
+            if "{closure#" in path.rsplit("::", 1)[-1] and body.arg_count == len(argv) + 1:
+                argv = [UNIT] + argv
         res = []
         for o in self.run(body, argv, st, depth + 1):
             if o.kind == "ret":
@@ -591,6 +596,17 @@ class Interp:
             else:
                 res.append(("panic", "%s in closure %s at %s" % (o.value, path, o.site), o.store))
         return res
+
+    def fresh_slot(self, st, value):
+        """A new addressable temporary holding `value`: (store', Ref)."""
+        n = self.__dict__.setdefault("_tmp", 1000)
+        self._tmp = n + 1
+        return self.sset(st, 0, n, value), Ref(0, n)
+
+    def call_named(self, name, args, st, depth, crate="anything"):
+        """Call a function by its resolved path with argument values (domain first, std models, then inlining)."""
+        t = {"k": "call", "callee": {"k": "direct", "path": name, "resolved": name}, "args": [], "target": 0, "dest": {"local": 0, "proj": []}}
+        return self._dispatch(name, args, st, depth, t, None, None, crate, 0)
 
     def _call(self, body, frame, t, sp, st, depth):
         self._cur_depth = depth
@@ -603,18 +619,38 @@ class Interp:
                 return self._norm(r)
             if isinstance(fval, FnV):
                 name = fval.path
+            elif isinstance(fval, Agg) and fval.kind == "closure":
+                r = self.apply_closure(fval, args, st, depth)
+                if r is not None:
+                    return r
+                return [("ret", TOP, self.havoc(st, args))]
             else:
                 self.notes.append(("indirect", "%s: indirect call through %r" % (body.site(sp), fval)))
                 return [("ret", TOP, self.havoc(st, args))]
+        return self._dispatch(name, args, st, depth, t, body, sp, body.crate, frame)
+
+    def _dispatch(self, name, args, st, depth, t, body, sp, crate, frame):
+        # closures called through the Fn* traits: (callable, (args...))
+        if (name.endswith("FnOnce<Args>>::call_once") or name.endswith("FnMut<Args>>::call_mut") or name.endswith("Fn<Args>>::call")
+                or name in ("std::ops::FnOnce::call_once", "std::ops::FnMut::call_mut", "std::ops::Fn::call")) and len(args) == 2:
+            f = self.read_ref(st, args[0])
+            tup = self.read_ref(st, args[1])
+            if isinstance(f, (Agg, FnV)) and isinstance(tup, Agg) and tup.kind == "tuple":
+                r = self.apply_closure(f, list(tup.fields), st, depth)
+                if r is not None:
+                    return r
         r = self.dom.call(self, name, args, st, t, frame)
         if r is not None:
             return self._norm(r)
         r = self.std_call(name, args, st)
         if r is not None:
             return self._norm(r)
-        callee = self.facts.fn(name, body.crate) or self.facts.fn(name)
+        callee = self.facts.fn(name, crate) or self.facts.fn(name)
         if callee is not None and depth < self.dom.inline_depth and self.dom.should_inline(name):
             res = []
+            if "{closure#" in name.rsplit("::", 1)[-1] and callee.arg_count == len(args) + 1:
+                # a non-capturing closure called through a fn pointer: its body still takes the (empty) environment first
+                args = [UNIT] + list(args)
             for o in self.run(callee, args, st, depth + 1):
                 if o.kind == "ret":
                     res.append(("ret", o.value, o.store))
@@ -623,7 +659,7 @@ class Interp:
                 else:
                     res.append(("panic", "may panic: %s (in %s at %s)" % (o.value, name, o.site), o.store))
             return res
-        self.notes.append(("unknown", "%s: unknown callee %s" % (body.site(sp), name)))
+        self.notes.append(("unknown", "%s: unknown callee %s" % (body.site(sp) if body is not None else "", name)))
         if t["target"] < 0:
             return [("panic", name, st)]
         return [("ret", TOP, self.havoc(st, args))]
@@ -685,6 +721,44 @@ class Interp:
             r = self.apply_closure(args[1], [args[0].field(0)], st, getattr(self, "_cur_depth", 0))
             if r is not None:
                 return [(k, some(v) if k == "ret" else v, s2) for k, v, s2 in r]
+        if n in ("std::result::Result::<T, E>::map_err", "std::result::Result::<T, E>::map", "std::result::Result::<T, E>::and_then",
+                 "std::result::Result::<T, E>::or_else") and len(args) == 2 \
+                and isinstance(args[0], Agg) and args[0].path == "std::result::Result":
+            r0 = args[0]
+            on_ok = n.endswith("::map") or n.endswith("::and_then")
+            if (r0.vi == 0) != on_ok:
+                return [(r0, st)]
+            r = self.apply_closure(args[1], [r0.field(0)], st, getattr(self, "_cur_depth", 0))
+            if r is not None:
+                wrap = {"map_err": err, "map": ok}.get(n.rsplit("::", 1)[-1], lambda v: v)
+                return [(k, wrap(v) if k == "ret" else v, s2) for k, v, s2 in r]
+        if n in ("std::option::Option::<T>::ok_or_else", "std::option::Option::<T>::unwrap_or_else", "std::option::Option::<T>::map_or",
+                 "std::option::Option::<T>::ok_or", "std::option::Option::<T>::unwrap_or") and isinstance(args[0], Agg) \
+                and args[0].path == "std::option::Option":
+            o = args[0]
+            m = n.rsplit("::", 1)[-1]
+            if m == "ok_or":
+                return [(ok(o.field(0)) if o.vi == 1 else err(args[1]), st)]
+            if m == "unwrap_or":
+                return [(o.field(0) if o.vi == 1 else args[1], st)]
+            if m == "ok_or_else":
+                if o.vi == 1:
+                    return [(ok(o.field(0)), st)]
+                r = self.apply_closure(args[1], [], st, getattr(self, "_cur_depth", 0))
+                if r is not None:
+                    return [(k, err(v) if k == "ret" else v, s2) for k, v, s2 in r]
+            if m == "unwrap_or_else":
+                if o.vi == 1:
+                    return [(o.field(0), st)]
+                r = self.apply_closure(args[1], [], st, getattr(self, "_cur_depth", 0))
+                if r is not None:
+                    return r
+            if m == "map_or" and len(args) == 3:
+                if o.vi == 0:
+                    return [(args[1], st)]
+                r = self.apply_closure(args[2], [o.field(0)], st, getattr(self, "_cur_depth", 0))
+                if r is not None:
+                    return r
         if n.endswith("::transpose") and "Result" in n and len(args) == 1 and isinstance(args[0], Agg) \
                 and args[0].path == "std::result::Result":
             r = args[0]
@@ -704,6 +778,40 @@ class Interp:
             return [(old, self.write_ref(st, args[0], new))]
         if n.endswith("as std::convert::From<T>>::from") or n.endswith("as std::convert::Into<U>>::into"):
             return [(args[0], st)]
+        # integer intrinsics on constants
+        if n.startswith("core::num::<impl ") and len(args) in (1, 2) and all(
+                isinstance(a, Const) and isinstance(a.v, int) and not isinstance(a.v, bool) for a in args):
+            ty = n[len("core::num::<impl "):].split(">", 1)[0]
+            m = n.rsplit("::", 1)[-1]
+            bits = {"u8": 8, "u16": 16, "u32": 32, "u64": 64, "usize": 64, "u128": 128, "i8": 8, "i16": 16, "i32": 32, "i64": 64,
+                    "isize": 64, "i128": 128}.get(ty)
+            if bits is not None:
+                lo, hi = (0, 2 ** bits - 1) if ty.startswith("u") else (-2 ** (bits - 1), 2 ** (bits - 1) - 1)
+                x = args[0].v
+                y = args[1].v if len(args) == 2 else None
+                base = m.split("_", 1)[1] if "_" in m else m
+                val = {"add": lambda: x + y, "sub": lambda: x - y, "mul": lambda: x * y}.get(base, lambda: None)() if y is not None else None
+                if val is not None:
+                    if m.startswith("saturating_"):
+                        return [(Const(max(lo, min(hi, val))), st)]
+                    if m.startswith("checked_"):
+                        return [(some(Const(val)) if lo <= val <= hi else NONE, st)]
+                    if m.startswith("wrapping_"):
+                        w = (val - lo) % (hi - lo + 1) + lo
+                        return [(Const(w), st)]
+                if m in ("min", "max") and y is not None:
+                    return [(Const(min(x, y) if m == "min" else max(x, y)), st)]
+                if m in ("abs", "unsigned_abs") and y is None:
+                    return [(Const(abs(x)), st)]
+                if m == "abs_diff" and y is not None:
+                    return [(Const(abs(x - y)), st)]
+        if n in ("std::cmp::min", "std::cmp::max", "std::cmp::Ord::min", "std::cmp::Ord::max") and len(args) == 2 and all(
+                isinstance(a, Const) and isinstance(a.v, int) for a in args):
+            return [(Const(min(args[0].v, args[1].v) if n.endswith("min") else max(args[0].v, args[1].v)), st)]
+        from . import stdmodels
+        r = stdmodels.call(self, n, args, st)
+        if r is not None:
+            return r
         if n.endswith("as std::ops::Deref>::deref") or n.endswith("as std::convert::AsRef<T>>::as_ref"):
             return None
         return None
